@@ -243,5 +243,6 @@ theorem Sys.step_complete {T : Tree K B V} (s : Sys H K B V) (op : Op H K B V) (
   | tcommit _ => simp [Sys.ctx] at hctx
   | bset _ _ _ => simp [Sys.ctx] at hctx
   | bcommit _ => simp [Sys.ctx] at hctx
+  | srem _ => simp [Sys.ctx] at hctx
 
 end Verif.SC
